@@ -21,6 +21,7 @@ import time as wall
 VERIF = os.path.dirname(os.path.dirname(os.path.abspath(__file__)))
 KNOWN_FILE = os.path.join(VERIF, 'known_findings.json')
 MAX_VIOLATIONS = 5
+CASE_TIMEOUT = int(os.environ.get('VERIF_CASE_TIMEOUT', '300'))
 
 _STATE = {}
 
@@ -49,9 +50,21 @@ def _worker(span):
     rep = {'execs': 0, 'nontrivial': 0, 'outcomes': collections.Counter(), 'viol': [],
            'known': collections.Counter(), 'counters': collections.Counter(), 'cases': 0,
            'selfcheck': None, 'samples': [], 'states': set(), 'transitions': set()}
+    import signal
+    from .kernel import Runaway
+
+    def on_alarm(signum, frame):
+        raise Runaway('watchdog', 'one case took more than %d s of wall time' % CASE_TIMEOUT)
+    signal.signal(signal.SIGALRM, on_alarm)
     for i in range(lo, hi):
         case = cases[i]
-        r = mod.explore_case(case, tier)
+        signal.alarm(CASE_TIMEOUT)
+        try:
+            r = mod.explore_case(case, tier)
+        except Runaway as w:
+            r = {'execs': 1, 'nontrivial': 0, 'viol': [{'faults': [], 'msgs': ['%s: %s' % (w.kind, w.detail)]}]}
+        finally:
+            signal.alarm(0)
         rep['cases'] += 1
         rep['execs'] += r['execs']
         rep['nontrivial'] += r['nontrivial']
